@@ -119,6 +119,18 @@ def run(ctx):
 
     # ---- corpus: the F20 schedule shapes (forced), in this process
     corpus = []
+    n_stuck = [0]
+
+    def _rc(*a, **kw):
+        """run_case for the corpus; once the real hub got stuck twice (a thread blocked inside the hub for good) the
+        remaining corpus cases are skipped — the failures found so far and the other streams carry the report"""
+        if n_stuck[0] >= 2:
+            raise H.Stuck("skipped: the hub already blocked threads for good in earlier corpus cases")
+        try:
+            return H.run_case(*a, **kw)
+        except H.Stuck:
+            n_stuck[0] += 1
+            raise
     progs = H.f20_case()
     # an EMPTY-STRING message between two others, plain delivery, blocking and non-blocking receives
     empty_progs = [[("c", 1, 0, 0), ("s", 1, 0, 1), ("s", 1, 0, 0), ("s", 1, 0, 2)],
@@ -127,7 +139,7 @@ def run(ctx):
                 H.forced([1, 1, 1, 0, 0, 0] * 30)):
         sched = "policy"
         try:
-            corpus.append(H.run_case(empty_progs, pol))
+            corpus.append(_rc(empty_progs, pol))
         except H.Stuck as e:
             res.failures.append({"what": "harness could not drive the real hub: %s" % e, "kf": None,
                                  "input": {"progs": empty_progs, "schedule": sched}})
@@ -137,19 +149,19 @@ def run(ctx):
         pols = [H.preemptive_policy({}, [])] + [H.random_policy(rng, 200, 40) for _ in range(12 if ctx.thorough else 5)]
         for pol in pols:
             try:
-                corpus.append(H.run_case(sp, pol, (), max_steps=700))
+                corpus.append(_rc(sp, pol, (), max_steps=700))
             except H.Stuck as e:
                 res.failures.append({"what": "harness could not drive the real hub: %s" % e, "kf": None,
                                      "input": {"progs": sp}})
     # ---- F48 (fixed): the witness of the non-blocking broadcast receive that never polled
     try:
-        corpus.append(H.run_case(H.f48_case(), H.preemptive_policy({}, [])))
+        corpus.append(_rc(H.f48_case(), H.preemptive_policy({}, [])))
     except H.Stuck as e:
         res.failures.append({"what": "harness could not drive the real hub: %s" % e, "kf": None, "input": "f48_case"})
     for hp in H.history_pairs():   # the delivery mode of a key changes across a disconnect / reconnect
         for pol in (H.preemptive_policy({}, []), H.forced([0] * 12 + [1] * 40 + [0, 1] * 60)):
             try:
-                corpus.append(H.run_case(hp, pol))
+                corpus.append(_rc(hp, pol))
             except H.Stuck as e:
                 res.failures.append({"what": "harness could not drive the real hub: %s" % e, "kf": None,
                                      "input": {"progs": hp}})
@@ -159,7 +171,7 @@ def run(ctx):
                   [0, 0, 0, 0, 1, 1, 1, 1, 0, 0] + [0, 1] * 6):             # A first, waits; alternate
         pol = H.forced(sched)
         try:
-            corpus.append(H.run_case(progs, pol))
+            corpus.append(_rc(progs, pol))
         except H.Stuck as e:
             res.failures.append({"what": "harness could not drive the real hub: %s" % e, "kf": None,
                                  "input": {"progs": progs, "schedule": sched}})
@@ -174,6 +186,15 @@ def run(ctx):
     except H.Stuck as e:
         res.failures.append({"what": "two-run history could not be driven on the real hub: %s" % e, "kf": None,
                              "input": "two_run_histories"})
+    # ---- broadcast channels: 1, 2, 3 remotes x block True / False x empty / non-empty, with a watchdog
+    try:
+        n_b, b_fails = H.broadcast_matrix()
+        res.evaluations += n_b
+        res.count("broadcast-matrix-cases", n_b)
+        for f in b_fails:
+            res.failures.append({"what": f["what"], "kf": None, "input": f["input"]})
+    except Exception as e:  # noqa
+        res.failures.append({"what": "broadcast matrix crashed: %r" % (e,), "kf": None, "input": "broadcast_matrix"})
     # ---- value-snapshot semantics: one StructuredMessage object reused / mutated by the sender, scribbling receiver
     try:
         n_hist, snap_fails = H.value_snapshot_histories(rng, 40 if ctx.thorough else 8)
@@ -202,7 +223,7 @@ def run(ctx):
 
     ctxm = multiprocessing.get_context("fork")
     # ---- random schedules: 2-3 endpoints, <= 4 sends/receives each, plain / structured / callback
-    n_cases = 6000 if ctx.thorough else 1500
+    n_cases = 6000 if ctx.thorough else 1200
     per = n_cases // N_PROCS
     jobs = [(rng.randrange(1 << 30), per, 80, 12) for _ in range(N_PROCS)]
     with ctxm.Pool(N_PROCS) as pool:
@@ -235,7 +256,7 @@ def run(ctx):
         if ctx.thorough:
             budget, chosen = 420, core + pairs
         else:
-            budget, chosen = 18, core + pairs[:50]
+            budget, chosen = 14, core + pairs[:40]
         deadline = time.time() + budget
         chunks = [chosen[i::N_PROCS] for i in range(N_PROCS)]
         sums = pool.map(H.worker_explore, [(ch, 2, deadline) for ch in chunks])
@@ -246,4 +267,6 @@ def run(ctx):
                 raise RuntimeError("hub worker failed:\n" + sm["error"])
             _merge(res, sm, "hub.lockstep.exhaustive")
     res.count("program-pairs-total", len(chosen))
+    # concrete message-level failures first, "the harness could not drive the hub" reports last
+    res.failures.sort(key=lambda f: ("could not drive" in f["what"]) or ("could not be driven" in f["what"]))
     return res
